@@ -15,10 +15,10 @@ import abacusnbody.analysis.cic as cic
 
 ID = 'C06'
 BOUNDS = {
-    'quick': 'TSC grids (3,3,3) (4,4,4) (3,4,5) (4,3,1) (3,3,1); CIC grids (3,3,3) (3,3,1) (4,3,1); one particle with free real '
+    'quick': 'TSC grids (3,3,3) (3,4,5) (4,3,1) (3,3,1); CIC grids (3,3,3) (3,3,1) (4,3,1); one particle with free real '
              'x,y,z in [0,box] (inclusive), free weight (or None), free offset in [0, box/max(n)], arbitrary symbolic pre-grid; '
-             'two particles (first inside cell (1,1,.), second free) on (3,3,1); _wrap_inplace on x in [-box, 2box); tsc_parallel(nthread=1) wiring on (3,3,1)',
-    'thorough': 'quick plus TSC (5,5,5) (6,6,6) (5,4,1) and CIC (3,4,5) (4,4,4) (4,4,1), two particles on (3,3,3)',
+             '_wrap_inplace on x in [-box, 2box); tsc_parallel(nthread=1, wrap=True) wiring on (3,3,1) with box=1, x0 in [-box,2box)',
+    'thorough': 'quick plus TSC (4,4,4) (5,5,5) (6,6,6) (5,4,1) and CIC (3,4,5) (4,4,4) (4,4,1), wrap wiring along each axis, two particles (first inside cell (1,1,.), second free, box=1) on (3,3,1)',
 }
 OUTSIDE = 'float32/float64 rounding and fastmath (real model); grids with an axis of length < 3 other than the one-cell-thick ' \
           'third axis (TSC clouds are 3 cells wide; such grids are not claimed); offsets outside [0, one cell]; grid sizes ' \
@@ -167,8 +167,11 @@ def body_scatter(kind, shape, with_w, N=1, slab=None):
     c.extra['case'] = case
     c.extra['keyprefix'] = f'{kind}:'
     c.extra['name_products'] = True
-    box = Sym(c.input('box', z3.RealSort()))
-    c.assume(box.e > 0)
+    if N == 1:
+        box = Sym(c.input('box', z3.RealSort()))
+        c.assume(box.e > 0)
+    else:
+        box = Sym(z3.RealVal(1))     # two-particle items: box = 1 keeps the grid coordinates linear (stated bound)
     pos, w = setup_particles(c, N, box, shape, with_w)
     if slab is not None:
         # domain split for parallelism: x of the last particle in [(slab-1/2), (slab+1/2)] cells (closed);
@@ -238,7 +241,7 @@ def body_wrap():
     c.prove(z3.And(conds), 'in-place wrap maps [-box, 2box) into [0, box) by a whole box', key='wrap:range')
 
 
-def body_wrapper(shape):
+def body_wrapper(shape, axes=(0, 1, 2)):
     """tsc_parallel with nthread=1 (serial path): grid allocation, wrap, single stripe."""
     c = ctx()
     case = dict(kind='wrapper', shape=list(shape))
@@ -246,10 +249,12 @@ def body_wrapper(shape):
     c.extra['keyprefix'] = 'wrapper:'
     c.extra['name_products'] = True
     c.extra['sample'] = case
-    box = Sym(c.input('box', z3.RealSort()))
-    c.assume(box.e > 0)
+    box = Sym(z3.RealVal(1))         # wiring item: box = 1 (stated bound); the kernel items carry the free box
     pos, w = setup_particles(c, 1, box, shape, True, lo_mult=-1, hi_mult=2)
     x0 = [v.e for v in common.cells(pos)]
+    for j in range(3):
+        if j not in axes:       # out-of-range (to be wrapped) only along the listed axes
+            c.assume(z3.And(x0[j] >= 0, x0[j] < box.e))
     off = Sym(c.input('offset', z3.RealSort()))
     c.assume(z3.And(off.e >= 0, off.e * max(shape) <= box.e))
     rebind.NB.reset(4)
@@ -275,30 +280,31 @@ def body_wrapper(shape):
 
 def items(tier, seed):
     out = []
-    tg = [(3, 3, 3), (4, 4, 4), (3, 4, 5), (4, 3, 1), (3, 3, 1)]
+    tg = [(3, 3, 3), (3, 4, 5), (4, 3, 1), (3, 3, 1)]
     cg = [(3, 3, 3), (3, 3, 1), (4, 3, 1)]
     if tier == 'thorough':
-        tg += [(5, 5, 5), (6, 6, 6), (5, 4, 1)]
+        tg += [(4, 4, 4), (5, 5, 5), (6, 6, 6), (5, 4, 1)]
         cg += [(3, 4, 5), (4, 4, 4), (4, 4, 1)]
     for kind, grids in (('tsc', tg), ('cic', cg)):
         for g in grids:
             for ww in (True, False):
-                if not ww and g not in ((3, 3, 3), (3, 3, 1)):
+                if not ww and (g not in ((3, 3, 3), (3, 3, 1)) or (tier == 'quick' and kind == 'cic' and g == (3, 3, 3))):
                     continue
                 npaths = (g[0] + 2) * (g[1] + 2) * (g[2] + 2 if g[2] > 1 else 1) * (1 if kind == 'tsc' else 4)
                 slabs = list(range(g[0] + 1)) if npaths > 150 else [None]
                 for sl in slabs:
                     out.append(dict(name=f'{kind}/{"x".join(map(str, g))}/w={ww}' + (f'/xslab={sl}' if sl is not None else ''),
                                     kind=kind, shape=g, w=ww, N=1, slab=sl))
-    out.append(dict(name='tsc/3x3x1/N=2', kind='tsc', shape=(3, 3, 1), w=True, N=2))
-    out.append(dict(name='cic/3x3x1/N=2', kind='cic', shape=(3, 3, 1), w=True, N=2))
     if tier == 'thorough':
-        out.append(dict(name='tsc/3x3x3/N=2', kind='tsc', shape=(3, 3, 3), w=True, N=2))
+        for sl in range(4):
+            out.append(dict(name=f'tsc/3x3x1/N=2/xslab={sl}', kind='tsc', shape=(3, 3, 1), w=True, N=2, slab=sl))
+            out.append(dict(name=f'cic/3x3x1/N=2/xslab={sl}', kind='cic', shape=(3, 3, 1), w=True, N=2, slab=sl))
     out.append(dict(name='wrap', kind='wrap'))
     out.append(dict(name='support', kind='support'))
-    out.append(dict(name='wrapper/3x3x1', kind='wrapper', shape=(3, 3, 1)))
+    out.append(dict(name='wrapper/3x3x1/axis0', kind='wrapper', shape=(3, 3, 1), axes=[0]))
     if tier == 'thorough':
-        out.append(dict(name='wrapper/3x3x3', kind='wrapper', shape=(3, 3, 3)))
+        out.append(dict(name='wrapper/3x3x1/axis1', kind='wrapper', shape=(3, 3, 1), axes=[1]))
+        out.append(dict(name='wrapper/3x3x1/axis2', kind='wrapper', shape=(3, 3, 1), axes=[2]))
     return out
 
 
@@ -310,7 +316,7 @@ def run(item):
         return common.run_paths(body_wrap, cov_funcs=FUNCS)[0]
     if k == 'support':
         return common.run_paths(body_support, cov_funcs=FUNCS)[0]
-    return common.run_paths(lambda: body_wrapper(tuple(item['shape'])), cov_funcs=FUNCS)[0]
+    return common.run_paths(lambda: body_wrapper(tuple(item['shape']), item.get('axes', [0, 1, 2])), cov_funcs=FUNCS)[0]
 
 
 def finding_key(e):
